@@ -121,6 +121,13 @@ func init() {
 	// soymsg/id.go hash32 with its block loop (fuel: one iteration per 12 bytes of limit-start, stated generously);
 	// the hidden loop names of soyhtml (exec.go, funcs.go)
 	gtFamily("79-gotrans-loops-misc", []gtItem{
+		// template/registry.go: node.Position() of the (immutable) AST node is the parameter m_node_Position
+		it("template", "Registry.LineNumber"),
+		it("template", "Registry.ColNumber"),
+		it("template", "Registry.Filename"),
+		// soyhtml/directives.go: value.String() of the printed value is the parameter f_value_String (abstract callee of
+		// the interface); the rune-boundary loop runs at most maxLen+1 times
+		{dir: "soyhtml", key: "directiveTruncate", cfg: &gtCfg{fuel: map[int]string{1: "maxLen + 2"}}},
 		it("soymsg", "tagName"),
 		{dir: "soymsg", key: "genBasePlaceholderNameFromHtml", cfg: &gtCfg{abstract: []string{"toUpperUnderscore"}}},
 		{dir: "soymsg", key: "hash32", cfg: &gtCfg{fuel: map[int]string{1: "limit - start + 1"}}},
